@@ -26,6 +26,10 @@ RULE = ("family B (80%): generated signatures over the five parameter kinds (0-2
         "coroutine, generated as source text; x 8 calls that Python itself binds (each parameter by position / by name / by an "
         "accepted alias / omitted; extra positionals and keywords; values valid / convertible / invalid). family G (20%): sync and "
         "async generator functions with yield / send / return annotations, eager or lazy, driven by a script of next/send values. "
+        "family E (15%): 2-4 positional-or-keyword parameters with Param(dependencies=...) and Options(max_params / min_params / "
+        "collect_errors), as plain function, instance method or @staticmethod over @utype.parse with a bare first parameter: the same "
+        "argument values are passed all by keyword and with the first j by position, and verdict, error type and the binding the body "
+        "receives must agree ('passing a parameter by position or by any accepted name is equivalent'). "
         "Non-trivial = the call binds and either converts something, uses a default, an alias, *args/**kwargs or fails; distinct = "
         "(signature shape, context, call shape, outcome).")
 ASSUMPTIONS = [
@@ -261,7 +265,106 @@ def convert(ann, v):
     return ("ok", o.value) if o.ok else ("bad",)
 
 
+def gen_E(rng):
+    """family E: one signature of 2-4 positional-or-keyword parameters (optionally inside a class: instance method, or
+    @staticmethod over @utype.parse with a bare first parameter), with Param(dependencies=...) and Options(max_params /
+    min_params), and one set of argument values; the monitor passes the same values with the first j by position"""
+    n = rng.choice([2, 3, 3, 4])
+    names = ["a", "b", "c", "d"][:n]
+    ctxk = rng.choice(["plain", "plain", "method", "static_bare"])
+    n_req = rng.choice([0, 1, 1, 2])
+    params = []
+    for k, nm in enumerate(names):
+        ann = rng.choice(["int", "str"])
+        if ctxk == "static_bare" and k == 0:
+            ann = None
+        dep = None
+        if ann and rng.random() < 0.3:
+            dep = rng.choice([x for x in names if x != nm])
+        params.append({"name": nm, "ann": ann, "required": k < n_req or (ctxk == "static_bare" and k == 0), "dep": dep})
+    opts = rng.choice([None, None, "max_params=%d" % rng.choice([1, 2, 3]), "min_params=%d" % rng.choice([1, 2, 3]),
+                       "collect_errors=True", "max_params=%d, collect_errors=True" % rng.choice([1, 2])])
+    given = []
+    for k, pr in enumerate(params):
+        if pr["required"] or rng.random() < 0.6:
+            val = rng.choice({"int": [5, "6", "6", "x"], "str": ["ab", 9], None: [1, "s"]}[pr["ann"]])
+            given.append((pr["name"], val))
+    return {"fam": "E", "params": params, "ctx": ctxk, "opts": opts, "given": given}
+
+
+def run_E(case, ctx):
+    import utype
+
+    parts = []
+    for pr in case["params"]:
+        s = pr["name"] + (f": {pr['ann']}" if pr["ann"] else "")
+        dflt = {"int": "0", "str": "'d'", None: "None"}[pr["ann"]]
+        if pr["dep"]:
+            s += " = utype.Param(" + ("" if pr["required"] else dflt + ", ") + f"dependencies=[{pr['dep']!r}])"
+        elif not pr["required"]:
+            s += " = " + dflt
+        parts.append(s)
+    names = [pr["name"] for pr in case["params"]]
+    deco = "@utype.parse" + (f"(options=utype.Options({case['opts']}))" if case["opts"] else "")
+    body = f"    _seen.append(({', '.join(names)},))\n    return 1\n"
+    seen = []
+    ns = {"utype": utype, "_seen": seen}
+    try:
+        if case["ctx"] == "plain":
+            src = f"{deco}\ndef fn({', '.join(parts)}):\n{body}"
+            exec(src, ns)
+            target = ns["fn"]
+        elif case["ctx"] == "method":
+            src = f"class K:\n    {deco}\n    def fn(self, {', '.join(parts)}):\n    {body.replace(chr(10) + '    ', chr(10) + '        ')}"
+            exec(src, ns)
+            target = ns["K"]().fn
+        else:
+            src = f"class K:\n    @staticmethod\n    {deco}\n    def fn({', '.join(parts)}):\n    {body.replace(chr(10) + '    ', chr(10) + '        ')}"
+            exec(src, ns)
+            target = ns["K"].fn
+    except Exception as e:
+        ctx.count("declaration_rejected:" + type(e).__name__)
+        return
+    given = case["given"]
+    # the values that can be passed by position: a prefix of the parameters that is given without a gap
+    prefix = 0
+    for k, nm in enumerate(names):
+        if k < len(given) and given[k][0] == nm:
+            prefix = k + 1
+        else:
+            break
+
+    def call(j):
+        del seen[:]
+        o = run(lambda: target(*[v for _, v in given[:j]], **{k: v for k, v in given[j:]}))
+        return o, [tuple(x) for x in seen]
+    ref, ref_seen = call(0)
+    ctx.count("calls")
+    ctx.count("equivalence_reference_calls")
+    for j in range(1, prefix + 1):
+        o, got = call(j)
+        ctx.count("calls")
+        ctx.count("equivalence_calls_compared")
+        sigk = ("E", case["ctx"], case["opts"], tuple((pr["ann"], pr["required"], bool(pr["dep"])) for pr in case["params"]), j, len(given), ref.kind, o.kind)
+        # (which of several applicable errors is raised first is not part of the statement: verdict and binding are)
+        same = (ref.ok == o.ok) and all(
+            len(x) == len(y) and all(V.approx_eq(p_, q_) and type(p_) is type(q_) for p_, q_ in zip(x, y)) for x, y in zip(ref_seen, got)) and len(ref_seen) == len(got)
+        if not same:
+            feat = "+".join(sorted({"dependencies"} & ({"dependencies"} if any(pr["dep"] for pr in case["params"]) else set()) |
+                                   ({"params-count"} if case["opts"] and "_params" in case["opts"] else set()) |
+                                   ({case["ctx"]} if case["ctx"] != "plain" else set()))) or "plain"
+            ctx.violation(f"C08/by-position-differs-from-by-keyword/{feat}",
+                          f"{_head(src)} values {short(given, 100)}: all by keyword -> {ref!r} body {short(ref_seen, 60)}; first {j} by position -> {o!r} body {short(got, 60)}",
+                          {"source": src, "values": short(given, 200), "by_keyword": repr(ref), "by_position": repr(o), "first_j_positional": j}, sig=sigk)
+        elif prefix and (not ref.ok or any(pr["dep"] for pr in case["params"]) or case["opts"]):
+            ctx.held(sigk)
+        else:
+            ctx.trivial("equivalent-plain")
+
+
 def make_case(i, rng, tier):
+    if rng.random() < 0.15:
+        return gen_E(rng)
     if rng.random() < 0.2:
         return {"fam": "G", "is_async": rng.random() < 0.4, "eager": rng.random() < 0.5, "yield_t": rng.choice(["int", "str", None]),
                 "send_t": rng.choice(["int", None]), "ret_t": rng.choice(["int", None]), "n": rng.choice([0, 1, 2, 3]),
@@ -545,6 +648,8 @@ def run_G(case, ctx):
 
 
 def run_case(case, ctx):
+    if case["fam"] == "E":
+        return run_E(case, ctx)
     return run_B(case, ctx) if case["fam"] == "B" else run_G(case, ctx)
 
 
